@@ -344,14 +344,18 @@ func (fw *c07FSWorld) runLocalPlan(h c06Hop, plan *c06Plan, doProbe bool) (c06Ob
 	var err error
 	switch h.Op {
 	case "obtain":
-		if len(h.More) > 0 {
-			err = cfg.ObtainCertAsync(ctx, w.subj.Spelling)
+		if len(h.More) > 0 || h.Cancel != "" {
+			c2, cancel2 := w.c06CallCtx(ctx, h)
+			err = cfg.ObtainCertAsync(c2, w.subj.Spelling)
+			cancel2()
 		} else {
 			err = cfg.ObtainCertSync(ctx, w.subj.Spelling)
 		}
 	case "renew":
-		if len(h.More) > 0 {
-			err = cfg.RenewCertAsync(ctx, w.subj.Spelling, h.Force)
+		if len(h.More) > 0 || h.Cancel != "" {
+			c2, cancel2 := w.c06CallCtx(ctx, h)
+			err = cfg.RenewCertAsync(c2, w.subj.Spelling, h.Force)
+			cancel2()
 		} else {
 			err = cfg.RenewCertSync(ctx, w.subj.Spelling, h.Force)
 		}
